@@ -35,6 +35,11 @@ K_TABLE = {
     "2018_JCP_149_064113/coulomb_atoms/cell_bounded.ini": (2, 2),
     "2018_JCP_149_064113/water/coulomb_power_bounded_lj_inverted.ini": (2, 2),
 }
+# quiet-prefix slices (K, Q) per configuration (quick, thorough): K commits of which the first Q are restricted to the
+# handlers with their own clock; they reach mode switches and ends of chain, which lie 3-4 commits into a run, at the
+# price of fixing the kind (not the time) of the leading commits
+QUIET_DEFAULT = [(), ()]
+QUIET_TABLE = {}
 TITLES = {"C07": "particles move continuously; events only hand velocity over",
           "C08": "a committed event was computed from the current trajectory",
           "C09": "pending candidate events equal a fresh start",
@@ -52,7 +57,7 @@ def replay_run(model, q):
     res = rep.replay(run)
     names = set(info.get("names", []))
     failed = [n for n in res["failed"] if n in names or not names]
-    what = "%s after events %s" % (info["config"], info.get("trace", "")[:200])
+    what = "%s after events %s" % (info["config"], str(info.get("trace", ""))[:200])
     if info.get("exception") and res["exception"] is not None:
         return {"reproduced": True, "what": "%s: concrete re-execution raises %r" % (what, res["exception"]),
                 "data": {"info": {k: v for k, v in info.items() if k != "replay"},
@@ -77,15 +82,37 @@ def main(prop, extra_parts=None):
     chk = harness.Check(prop, TITLES[prop])
     SCRATCH[0] = chk.scratch
     if chk.args.replay:
-        print("replay of run-level counterexamples is not implemented")
-        sys.exit(2)
+        import ast
+        with open(chk.args.replay) as f:
+            d = json.load(f)["data"]
+        info = {}
+        for k, v in d["info"].items():
+            try:
+                info[k] = ast.literal_eval(v) if isinstance(v, str) else v
+            except (ValueError, SyntaxError):
+                info[k] = v
+
+        class Q:
+            name = "replay"
+        Q.info = info
+        out = replay_run(dict(d["model"]), Q)
+        print("replay:", out["what"])
+        sys.exit(1 if out["reproduced"] else 0)
     configs = runs.shipped_configs()
     if chk.args.only:
         configs = [c for c in configs if chk.args.only in c]
     tier = 1 if chk.thorough else 0
     if os.environ.get("VERIF_RUNS_K"):
+        kq = os.environ["VERIF_RUNS_K"].split(":")
+        kq = int(kq[0]) if len(kq) == 1 else (int(kq[0]), int(kq[1]))
         for c in list(K_TABLE) + configs:
-            K_TABLE[c] = (int(os.environ["VERIF_RUNS_K"]),) * 2
+            K_TABLE[c] = (kq,) * 2
+        QUIET_TABLE.clear()
+        QUIET_DEFAULT[0] = QUIET_DEFAULT[1] = ()
+
+    def variants(c):
+        """Event bounds of one configuration: the free run of K events, and the quiet-prefix slices (K, Q)."""
+        return [K_TABLE.get(c, K_TABLE["default"])[tier]] + list(QUIET_TABLE.get(c, QUIET_DEFAULT)[tier])
     from jellyfysh.mediator.single_process_mediator import SingleProcessMediator
     from jellyfysh.activator.tag_activator import TagActivator
     from jellyfysh.state_handler.tree_state_handler import TreeStateHandler
@@ -98,12 +125,17 @@ def main(prop, extra_parts=None):
                 "jellyfysh.base.factory.build_from_config on every shipped .ini",
                 "every tagger and event-handler class named by the shipped configurations (listed per configuration "
                 "under coverage.parts)")
-    chk.bound(configurations=configs, events_per_run={c: K_TABLE.get(c, K_TABLE["default"])[tier] for c in configs},
+    chk.bound(configurations=configs,
+              events_per_run={c: [("K=%d" % k) if isinstance(k, int) else ("K=%d with the first %d commits restricted to "
+                                                                           "own-clock handlers" % k)
+                                  for k in variants(c)] for c in configs},
               initial_state="symbolic positions in [0, L); composite objects: arbitrary molecules satisfying the "
                             "composite invariant (leaves = centre + offsets with weighted sum zero, |offset| < L/8)",
               symbolic="every random draw, every potential displacement (>= 0 or +inf) and derivative, hence every "
                        "order in which the pending events can fire")
-    chk.outside_claim("histories longer than the event bound", "more root nodes than shipped (2, or 1)",
+    chk.outside_claim("histories longer than the event bound (quiet-prefix slices: longer histories only with the "
+                      "stated number of leading commits by handlers with their own clock: start of run, sampling, end "
+                      "of chain, end of run, mode switch, dumping)", "more root nodes than shipped (2, or 1)",
                       "real potentials (stubs over-approximate them: a displacement is any time >= 0 or +inf, a "
                       "derivative any real)", "heap scheduler (tied to the list scheduler by C06)",
                       "cell grids larger than the reduced ones", "float rounding (ideal reals)")
@@ -116,11 +148,11 @@ def main(prop, extra_parts=None):
     # phase 1: split every configuration into sub-trees (frontier of the decision tree); the depth is raised until a
     # configuration has enough sub-trees to keep the workers busy (or the frontier itself becomes too wide)
     sub, results = [], []
-    pending = {c: None for c in configs}
-    for depth in (3, 6, 9, 12):
+    pending = {(c, k): None for c in configs for k in variants(c)}
+    DEPTHS = (3, 6, 9, 12, 16, 20, 25, 30, 36, 42, 50, 60, 72, 86, 100, 120, 140, 160)
+    for depth in DEPTHS:
         tasks = []
-        for c in pending:
-            K = K_TABLE.get(c, K_TABLE["default"])[tier]
+        for (c, K) in pending:
             tasks.append((c, K, os.path.join(chk.scratch, "cfg%d_%d" % (len(tasks), depth)), None, depth, want))
         saved_paths = chk.paths
         saved_q = len(chk.queries)
@@ -130,16 +162,18 @@ def main(prop, extra_parts=None):
             if "error" in r:
                 results.append(r)
                 continue
-            c = r["task"][0]
+            c = (r["task"][0], r["task"][1])
             if r.get("too_many_prefixes"):
                 continue                       # keep the split of the previous depth
             pending[c] = r
-            if len(r["prefixes"]) < 24 and depth < 12 and r["prefixes"]:
+            if len(r["prefixes"]) < 24 and r["prefixes"] and \
+                    depth < (DEPTHS[-1] if isinstance(r["task"][1], tuple) else 12):
                 nxt[c] = r
         # queries of complete short paths are re-generated at the next depth: drop this round's for configurations
         # that go on
         if nxt:
-            keep = [q for q in chk.queries[saved_q:] if q.info.get("config") not in nxt]
+            going = {(c, runs.split_kq(k)) for (c, k) in nxt}
+            keep = [q for q in chk.queries[saved_q:] if (q.info.get("config"), tuple(q.info.get("K", ()))) not in going]
             del chk.queries[saved_q:]
             chk.queries.extend(keep)
         done = {c: r for c, r in pending.items() if r is not None and c not in nxt}
